@@ -59,21 +59,33 @@ impl<T> ObservableState<T> {
         observed_version: &mut u64,
         cx: &Context<'_>,
     ) -> Poll<Option<()>> {
+        #[cfg(eyeball_verif)]
+        crate::verif::pause(crate::verif::PausePoint::PollBeforeMeta);
         let mut metadata = self.metadata.write().unwrap();
+        #[cfg(eyeball_verif)]
+        crate::verif::pause(crate::verif::PausePoint::PollHoldingMeta);
 
         if metadata.version == 0 {
+            #[cfg(eyeball_verif)]
+            crate::verif::pause(crate::verif::PausePoint::PollAfterCheck);
             Poll::Ready(None)
         } else if *observed_version < metadata.version {
             *observed_version = metadata.version;
+            #[cfg(eyeball_verif)]
+            crate::verif::pause(crate::verif::PausePoint::PollAfterCheck);
             Poll::Ready(Some(()))
         } else {
             metadata.wakers.push(cx.waker().clone());
+            #[cfg(eyeball_verif)]
+            crate::verif::pause(crate::verif::PausePoint::PollAfterCheck);
             Poll::Pending
         }
     }
 
     pub(crate) fn set(&mut self, value: T) -> T {
         let result = mem::replace(&mut self.value, value);
+        #[cfg(eyeball_verif)]
+        crate::verif::pause(crate::verif::PausePoint::WriteBeforeNotify);
         self.incr_version_and_wake();
         result
     }
@@ -113,7 +125,11 @@ impl<T> ObservableState<T> {
 
     /// "Close" the state – indicate that no further updates will happen.
     pub(crate) fn close(&self) {
+        #[cfg(eyeball_verif)]
+        crate::verif::pause(crate::verif::PausePoint::CloseBeforeMeta);
         let mut metadata = self.metadata.write().unwrap();
+        #[cfg(eyeball_verif)]
+        crate::verif::pause(crate::verif::PausePoint::CloseHoldingMeta);
         metadata.version = 0;
         // Clear the backing buffer for the wakers, no new ones will be added.
         wake(mem::take(&mut metadata.wakers));
@@ -123,6 +139,8 @@ impl<T> ObservableState<T> {
         let metadata = self.metadata.get_mut().unwrap();
         metadata.version += 1;
         wake(metadata.wakers.drain(..));
+        #[cfg(eyeball_verif)]
+        crate::verif::pause(crate::verif::PausePoint::WriteAfterNotify);
     }
 }
 
